@@ -211,7 +211,21 @@ def run_pipeline(case, scheduled=True, stop_step=None, jitter=None, endless=Fals
             try:
                 if saver is not None:
                     saver.start()
-                tokenizer.start_all()
+                order = case.get("start", "start_all")
+                if order == "start_all":
+                    tokenizer.start_all()
+                elif order == "tokenizer_first":
+                    tokenizer.start()
+                    for o in observers:
+                        o.start()
+                elif order == "tokenizer_middle":
+                    for o in observers[: len(observers) // 2]:
+                        o.start()
+                    tokenizer.start()
+                    for o in observers[len(observers) // 2:]:
+                        o.start()
+                else:
+                    raise HarnessError(order)
                 if stop_step is not None:
                     if scheduled:
                         sched.yield_point(
